@@ -12,7 +12,10 @@ EXTENDS Grammar
 ParseText(s) ==
   LET lx == LexRun(s) IN
   IF lx.phase = "unspec" THEN [st |-> "unspec"]
-  ELSE IF lx.phase = "rej" THEN [st |-> "rej", err |-> lx.err]
+  ELSE IF lx.phase = "rej" THEN
+       \* after a construct the implementation may already refuse (mayrej) the error it reports
+       \* need not be the one found here: no facts are required of its text
+       [st |-> "rej", err |-> IF lx.mayrej THEN [why |-> "any"] ELSE lx.err]
   ELSE LET t == Decl(lx.toks) IN
        IF IsRej(t) THEN [st |-> "rej", err |-> [why |-> "grammar"]]
        ELSE [st |-> "ok", o |-> lx.opts, t |-> t, mayrej |-> lx.mayrej]
